@@ -16,7 +16,7 @@ CLAIM = dict(
          'hi_lo_rebuild): for each of the 27 pseudo-instructions, every accepted register spelling (rd = rs, x0, sp: no side condition), every '
          'state (registers, pc, memory arbitrary) in which the emitted bytes sit at the pc, the Spec machine (Spec/Sem.v: fetch from byte memory, '
          'decode32, step) ends in exactly the documented state: C05_li -- whatever pseudo_rule emits (addi, or lui+addi) and wherever it is '
-         'finally resolved, rd = operand value mod 2^32 for EVERY integer value, nothing else changed, pc + 4/8; C05_unary (mv not neg seqz snez '
+         'finally resolved, rd = operand value mod 2^32 for EVERY integer value, nothing else changed, pc + 4/8; C05_li_program -- the one-line program `li rd, e` through ALL 16 passes (they are pseudo_rule followed by emit_bytes), assembled bytes loaded and run leave the value in rd; C05_unary (mv not neg seqz snez '
          'sltz sgtz = documented function); C05_branch_zero / C05_branch_two (10 branches: taken iff the documented signed/unsigned condition, '
          'target = label, no register written); C05_j_jal, C05_jr_jalr, C05_ret, C05_call_tail_near, C05_call_far (x1 = pc+8, target for every '
          'distance), C05_tail_far (only x6 written), C05_nop, C05_fence, C05_memory_writes. Tie to the code: pipeline correspondence of the '
